@@ -60,6 +60,14 @@ theorem remove_by_due_time_disposes_wrong_item :
     (Thr2LoopN.run ⟨[0, 1], fun _ => 5, .removeByDue⟩ Thr2LoopN.init
       [.loop, .loop, .loop, .dispose 1, .loop, .tick 5, .loop, .loop]).started 0 = false := by decide
 
+/-- **periodic_no_tick_after_dispose.** `NewThreadScheduler.schedule_periodic` (also ThreadPoolScheduler): whatever
+the period (zero included), however long each tick takes (within or beyond its period) and wherever `dispose()`
+lands (while waiting, while a tick runs): no tick starts after `dispose()` — the flag is read before every
+tick, whether or not a wait preceded it. -/
+theorem periodic_no_tick_after_dispose (period0 : Bool) (sch : List Nat) :
+    (Thr2Periodic.run (Thr2Periodic.init period0) sch).bad = false :=
+  Thr2Periodic.never_bad period0 sch
+
 /-! Non-vacuity: actions do start when due and not disposed; a dispose after the wake-up but before the
 `finished` read still prevents the start; a late dispose does not un-start. -/
 example : (run ⟨.timer, false⟩ (init ⟨.timer, false⟩) [2, 0, 0]).started = true := by decide
@@ -74,6 +82,15 @@ example : (Thr2LoopN.run ⟨[0, 1], fun i => if i = 0 then 2 else 3, .flag⟩ Th
     [.loop, .loop, .loop, .tick 2, .dispose 1, .loop, .loop, .loop, .loop, .loop, .tick 3, .loop, .loop, .loop]).started 0 = true ∧
     (Thr2LoopN.run ⟨[0, 1], fun i => if i = 0 then 2 else 3, .flag⟩ Thr2LoopN.init
     [.loop, .loop, .loop, .tick 2, .dispose 1, .loop, .loop, .loop, .loop, .loop, .tick 3, .loop, .loop, .loop]).started 1 = false := by
+  decide
+
+-- periodic: two ticks, the second overruns; dispose arrives during it; the thread returns without a third tick
+example : (Thr2Periodic.runLabels (Thr2Periodic.init false) [0, 2, 0, 0, 4, 0, 2, 0, 0, 1, 5, 0, 0]).1 =
+    ["wait", "elapse", "waitret", "tick-start", "tick-end", "wait", "elapse", "waitret", "tick-start", "dispose",
+     "tick-end-slow", "nowait", "return"] := by decide
+-- the event loop's wait returns early (scheduler clock stepped back): it re-reads the clock and waits again
+example : (runLabels ⟨.evloop, false⟩ (init ⟨.evloop, false⟩) [0, 0, 3, 0, 0, 2, 0, 0, 0]).1 =
+    ["top-notdue", "bottom-wait", "timeout-early", "top-notdue", "bottom-wait", "tick", "timeout", "top-due", "check-run"] := by
   decide
 
 end C34
